@@ -269,7 +269,7 @@ class An:
                 continue
             c = callee_of(t)
             name = c['name'] if c else None
-            if name in NONWRITING:
+            if name in NONWRITING and not (c and ((c.get('resolved') or {}).get('local') or (c.get('local') and not c.get('trait')))):
                 continue
             site = self.term_point(bi)
             for a, aty in zip(t['args'], t['arg_tys']):
@@ -552,10 +552,14 @@ class An:
             return ('call', '?indirect:' + str(self.val_op(t['func'], site)), args, site[0])
         path = strip_generics(c['path'])
         name = c['name']
+        r0 = c.get('resolved') or {}
+        # a trait method that resolves to (or is) a body of the analysed crate is never assumed to be a transparent
+        # view: a local `Deref`/`AsRef`/`Index` impl may do anything (its body is analysed like any other callee)
+        is_local_impl = bool(c.get('local') and not c.get('trait')) or bool(r0.get('local'))
         # --- views
-        if name in VIEW_NAMES and len(args) == 1:
+        if name in VIEW_NAMES and len(args) == 1 and not is_local_impl:
             return args[0]
-        if name in ('index', 'index_mut') and len(args) == 2:
+        if name in ('index', 'index_mut') and len(args) == 2 and not is_local_impl:
             r = args[1]
             if r[0] == 'agg' and r[2].rsplit('::', 1)[0] in RANGE_ADTS:
                 rk = r[2].rsplit('::', 1)[0]
